@@ -35,6 +35,7 @@ def base_rules(rng):
         rules[0]["gcc_deps"] = "${out}.d"
     if pick(rng, 0.4 if MULTIKEY else 0.15):
         rules[0]["export"] = ["X", {"EXP": "${OPT}", **({"EXP2": "two", "EXP3": "three"} if MULTIKEY else {})}]
+        if pick(rng, 0.3): rules[0]["export"].insert(rng.randrange(3), {})
     if pick(rng, 0.1):
         rules.append({"name": "POST_LINK", "in": "elf", "out": "bin", "cmd": "objcopy ${in} ${out}"})
     if pick(rng, 0.1):
